@@ -469,10 +469,10 @@ func runSpecial(target string, k int, rng *rand.Rand, start chan struct{},
 
 func main() {
 	driver.Main(driver.Property{
-		ID:    "C02",
-		Level: "exploration",
-		Rule:  "every multi-input catalogue entry and every special multi-goroutine construct (k goroutines into safe/eventually-safe observables and Serialize, Delay, Timeout, ObserveOn, SubscribeOn, ThrowOnContextCancel, time buffers/samplers, MergeMap over async inners, merged Intervals, five subjects, Share, ShareReplay, Connectable, ToChannel, inner windows and groups) — alone, directly above each pass-through operator and above random synchronous chains — driven by 2-8 sequential asynchronous sources released by a start barrier, with seeded yield/jitter at the library's lock boundaries. Oracle: an enter/exit counter in every recorder callback (dwelling while inside) must never exceed 1. Non-trivial: callbacks observed AND ≥2 producers simultaneously inside subscriber.Next (measured at the hook points); distinct = distinct delivery orders.",
-		Assume: []string{"every harness source emits from exactly one goroutine", "the dwell inside a callback never calls back into the library"},
+		ID:        "C02",
+		Level:     "exploration",
+		Rule:      "every multi-input catalogue entry and every special multi-goroutine construct (k goroutines into safe/eventually-safe observables and Serialize, Delay, Timeout, ObserveOn, SubscribeOn, ThrowOnContextCancel, time buffers/samplers, MergeMap over async inners, merged Intervals, five subjects, Share, ShareReplay, Connectable, ToChannel, inner windows and groups) — alone, directly above each pass-through operator and above random synchronous chains — driven by 2-8 sequential asynchronous sources released by a start barrier, with seeded yield/jitter at the library's lock boundaries. Oracle: an enter/exit counter in every recorder callback (dwelling while inside) must never exceed 1. Non-trivial: callbacks observed AND ≥2 producers simultaneously inside subscriber.Next (measured at the hook points); distinct = distinct delivery orders.",
+		Assume:    []string{"every harness source emits from exactly one goroutine", "the dwell inside a callback never calls back into the library"},
 		Plan:      plan,
 		Run:       runCase,
 		CaseWatch: 20 * time.Second,
